@@ -4,7 +4,7 @@ import collections
 import copy
 import sys
 
-from sim import fakes
+from sim import fakes, wire
 from sim import jobs as J
 from sim import simtasks
 from sim.kernel import Kernel, SimKilled, SimProc, SpinDetected
@@ -45,16 +45,6 @@ def gen_plan(rng, opts=None):
             elif k == "kill_shm":
                 faults.append(dict(kind="kill", proc=f"h{rng.randrange(cluster['hosts'])}.shm", after=rng.randint(0, 200)))
     return dict(job=job, cluster=cluster, net=net, faults=faults)
-
-
-def _faultable(frames, addr):
-    from cascade.executor.msg import Ack, Syn
-    from cascade.executor.serde import des_message
-    try:
-        m = des_message(frames[0])
-    except Exception:
-        return False
-    return isinstance(m, (Syn, Ack))
 
 
 class Mon:
@@ -205,8 +195,8 @@ def run(plan, ch, want_log=False):
     K = Kernel(ch, max_steps=400_000, max_time_ns=3600 * 10**9)
     if want_log:
         K.tracelog = []
-    ncfg = dict(lat=(net["lat_lo"], net["lat_hi"]), faultable=_faultable, drop_pct=net.get("drop", 0), dup_pct=net.get("dup", 0),
-                max_consecutive_drops=net.get("max_consec"), plan=net.get("plan"))
+    ncfg = dict(lat=(net["lat_lo"], net["lat_hi"]), faultable=wire.faultable, drop_pct=net.get("drop", 0), dup_pct=net.get("dup", 0),
+                max_drops_per_message=net.get("max_consec"), fault_key=wire.fault_key, plan=net.get("plan"))
     fakes.new_world(K, ncfg)
     simtasks.reset()
     mon = Mon(K, plan, job)
